@@ -1,6 +1,8 @@
 SPECIFICATION Spec
 CONSTANTS
-  MaxSteps = 7
-  MaxCuts = 2
-INVARIANTS AfterDI AfterTO2 FailedRunNoCred CanContinue
-PROPERTIES ReuseChangesNothing Atomic CredOnlyAfterDone2
+  MaxSteps = 6
+  MaxCuts = 1
+  Ext = TRUE
+  AIOs = {TRUE, FALSE}
+INVARIANTS AfterDI AfterTO2 FailedRunNoCred CanContinue AIOReady StaleBlobRefused RegisteredByOwner HeldNotServed
+PROPERTIES ReuseChangesNothing Atomic CredOnlyAfterDone2 LocateOnlyLive RestoreGivesBack FailedResaleKeepsVoucher
